@@ -16,7 +16,7 @@ RULE = (
     "log, discover response, wake-ups) and controller calls, with periodic-save ticks (the fake threading.Timer "
     "callback is fired by the harness) at drawn positions - biased so that a tick falls right before the last "
     "state change - ended by stop(); in a third of the cases a second gateway with its own file lives in the same process "
-    "and its traffic and periodic saves are interleaved. Oracle: typed projection before stop() == typed projection of a fresh "
+    "and its traffic and periodic saves are interleaved; the file is named absolutely, by bare name, as ./name or below a sub-directory of the working directory. Oracle: typed projection before stop() == typed projection of a fresh "
     "gateway after start_persistence() on the same file. Non-trivial = >= 1 tick strictly between two state "
     "changes and the last state change after the last tick; distinct by (version, format, kind of last change, "
     "history hash)."
@@ -30,13 +30,14 @@ def cases(draw):
     ops = list(hist["ops"])
     # a final state change of a drawn kind (so that every handler kind ends a history now and then)
     nid = draw(st.sampled_from(gen.NODE_POOL[:3]))
-    tail_kind = draw(st.sampled_from(["idreq", "node", "child", "set", "battery", "sketch_name", "sketch_version", "heartbeat", "none"]))
+    tail_kind = draw(st.sampled_from(["idreq", "node", "child", "set", "set_rebooting", "battery", "sketch_name", "sketch_version", "heartbeat", "none"]))
     version = hist["version"]
     tail = {
         "idreq": "255;255;3;0;3;",
         "node": f"{nid};255;0;0;17;2.1",
         "child": f"{nid};{draw(st.integers(0, 5))};0;0;6;late",
         "set": f"{nid};0;1;0;0;{draw(st.integers(-40, 40))}",
+        "set_rebooting": f"{nid};0;1;0;0;{draw(st.integers(41, 80))}",  # a value reported while a firmware update is pending
         "battery": f"{nid};255;3;0;0;{draw(st.integers(0, 100))}",
         "sketch_name": f"{nid};255;3;0;11;sk{draw(st.integers(0, 99))}",
         "sketch_version": f"{nid};255;3;0;12;{draw(st.integers(0, 9))}.{draw(st.integers(0, 9))}",
@@ -46,11 +47,16 @@ def cases(draw):
     n_ticks = draw(st.integers(0, 4))
     for _ in range(n_ticks):
         ops.insert(draw(st.integers(0, len(ops))), {"op": "tick"})
+    if tail_kind == "set_rebooting":
+        ops.append({"op": "line", "text": f"{nid};255;0;0;17;2.0"})
+        ops.append({"op": "line", "text": f"{nid};0;0;0;6;t"})
+        ops.append({"op": "fw", "nids": [nid], "type": 1, "ver": 1, "image": {"len": 40, "seed": 1, "fill": "random"}})
     if tail is not None:
         if draw(st.booleans()):
             ops.append({"op": "tick"})
         ops.append({"op": "line", "text": tail})
     case = {"version": version, "ext": draw(st.sampled_from(["json", "pickle"])), "ops": ops, "tail": tail_kind}
+    case["shape"] = draw(st.sampled_from(["abs", "abs", "bare", "dot", "sub"]))  # how the application names the file
     if draw(st.integers(0, 2)) == 0:
         # a second gateway with its own persistence file lives in the same process (two serial ports, say):
         # its traffic and its periodic saves are interleaved with the history
@@ -64,10 +70,26 @@ def cases(draw):
 
 
 def check_case(case, stats=None):
+    cwd = os.getcwd()
+    try:
+        return _check_case(case, stats)
+    finally:
+        os.chdir(cwd)
+
+
+def _check_case(case, stats=None):
     version = case["version"]
     with persist.Scratch() as tmp, persist.TimerPatch() as fake:
         path = os.path.join(tmp, f"net.{case['ext']}")
-        life = persist.Lifetime(fake, version, path)
+        shape = case.get("shape", "abs")
+        given = path
+        if shape in ("bare", "dot"):
+            os.chdir(tmp)
+            given = ("" if shape == "bare" else "./") + f"net.{case['ext']}"
+        elif shape == "sub":
+            os.chdir(os.path.dirname(tmp))
+            given = f"{os.path.basename(tmp)}/net.{case['ext']}"
+        life = persist.Lifetime(fake, version, given)
         other = persist.Lifetime(fake, version, os.path.join(tmp, f"other.{case['ext']}")) if case.get("neighbour") else None
         changes_since_tick = 0
         tick_between = False
@@ -115,7 +137,7 @@ def check_case(case, stats=None):
         stats.case(
             common.chash(case) if nt else None,
             {"version": version, "ext": case["ext"], "tail": case["tail"], "ops": case["ops"][-6:], "n_ops": len(case["ops"])},
-            labels=[case["ext"], "tail-" + case["tail"]] + (["tick-between"] if tick_between else []) + (["neighbour-gateway"] if case.get("neighbour") else []),
+            labels=[case["ext"], "tail-" + case["tail"]] + (["tick-between"] if tick_between else []) + (["neighbour-gateway"] if case.get("neighbour") else []) + ["path-" + case.get("shape", "abs")],
         )
 
 
